@@ -372,3 +372,54 @@ pub fn sizes(args: &[String]) {
     }
     s.print();
 }
+
+// ------------------------------------------------------------------ timestamps at the end of the time axis
+/// `vh alloc maxtime`: events scheduled for Duration::MAX (the timestamp of the queue's own tail sentinels) are ordinary
+/// payloads for the purposes of C15: queued, cancellable, and dropped exactly once with the queue.
+pub fn maxtime(_args: &[String]) {
+    use des_cqueue::CQueue;
+    use std::cell::RefCell;
+    use std::rc::Rc;
+    struct Counted(Rc<RefCell<Vec<u32>>>, usize);
+    impl Drop for Counted {
+        fn drop(&mut self) {
+            self.0.borrow_mut()[self.1] += 1;
+        }
+    }
+    let mut s = Summary::default();
+    for (n, w) in [(1usize, Duration::from_nanos(1)), (4, Duration::from_millis(5)), (1028, Duration::from_secs_f64(0.0025)), (3, Duration::from_secs(1 << 32))] {
+        s.behaviours += 1;
+        s.replays += 1;
+        watchdog::enter(|| json!({"maxtime": {"n": n, "w_ns": w.as_nanos() as u64}}).to_string());
+        let drops = Rc::new(RefCell::new(vec![0u32; 5]));
+        let r = catch_unwind(AssertUnwindSafe(|| {
+            let mut q: CQueue<Counted> = CQueue::new(n, w);
+            let _h0 = q.add(Duration::from_secs(1), Counted(drops.clone(), 0));
+            let h1 = q.add(Duration::MAX, Counted(drops.clone(), 1));
+            let _h2 = q.add(Duration::MAX, Counted(drops.clone(), 2));
+            let _h3 = q.add(Duration::MAX - Duration::from_nanos(1), Counted(drops.clone(), 3));
+            let len_before = q.len();
+            q.cancel(h1);
+            let len_after = q.len();
+            let first = q.fetch_next();
+            let first_ok = first.1 == Duration::from_secs(1) && (first.0).1 == 0;
+            drop(first);
+            let _h4 = q.add(Duration::MAX, Counted(drops.clone(), 4));
+            drop(q);
+            (len_before, len_after, first_ok)
+        }));
+        match r {
+            Err(_) => s.mismatch(json!({"field": "queue with events at Duration::MAX: an operation panicked", "n": n, "w_ns": w.as_nanos() as u64})),
+            Ok((lb, la, first_ok)) => {
+                let d = drops.borrow().clone();
+                if lb != 4 || la != 3 || !first_ok || d != vec![1, 1, 1, 1, 1] {
+                    s.mismatch(json!({"field": "queue with events at Duration::MAX: len / first fetch / drop counts", "expected": {"len_before": 4, "len_after": 3, "drops": [1, 1, 1, 1, 1]},
+                                      "got": {"len_before": lb, "len_after": la, "first_ok": first_ok, "drops": d}, "n": n, "w_ns": w.as_nanos() as u64}));
+                } else {
+                    s.checks += 4;
+                }
+            }
+        }
+    }
+    s.print();
+}
